@@ -3,7 +3,7 @@
 usage: refac_eval.py <dir with r*.diff> ...   Applies each patch to /repo, runs every registered check
 (-no-evidence), undoes it. Prints every alarm (= false alarm to be fixed in the checker)."""
 import glob, os, subprocess, sys, concurrent.futures as cf
-ENV = dict(os.environ, GOFLAGS="-mod=mod", GOPROXY="off", GOSUMDB="off", GOTOOLCHAIN="local")
+ENV = dict(os.environ, GOFLAGS="-mod=mod -trimpath", GOPROXY="off", GOSUMDB="off", GOTOOLCHAIN="local")
 def sh(cmd, cwd=None):
     p = subprocess.run(cmd, shell=True, cwd=cwd, capture_output=True, text=True, env=ENV)
     return p.returncode, p.stdout + p.stderr
